@@ -7,6 +7,7 @@ import (
 	"encoding/json"
 	"fmt"
 	"io"
+	"os"
 	"os/exec"
 	"sync"
 )
@@ -62,7 +63,11 @@ var (
 const nWorkers = 6
 
 func start() (*worker, error) {
-	cmd := exec.Command("python3", "/verif/tools/xmlproj.py")
+	root := os.Getenv("VERIF_DIR")
+	if root == "" {
+		root = "/verif"
+	}
+	cmd := exec.Command("python3", root+"/tools/xmlproj.py")
 	in, err := cmd.StdinPipe()
 	if err != nil {
 		return nil, err
